@@ -397,6 +397,40 @@ func steps(thorough bool) []step {
 		}
 		return ""
 	}})
+	// configuring an instance after construction through its exported Options value: only that instance changes
+	out = append(out, step{"last-writer.Options.RenderOptions.Indent = 9 (in place)", func(w *world) string {
+		if len(w.ws) == 0 {
+			return ""
+		}
+		i := w.ws[len(w.ws)-1]
+		if i.w.Options.RenderOptions == nil {
+			return "writer has nil RenderOptions"
+		}
+		i.w.Options.RenderOptions.Indent = 9
+		i.want.Indent = 9
+		return ""
+	}})
+	out = append(out, step{"last-writer.Options.StoreOptions.NoClobber = true (in place)", func(w *world) string {
+		if len(w.ws) == 0 {
+			return ""
+		}
+		i := w.ws[len(w.ws)-1]
+		if i.w.Options.StoreOptions == nil {
+			return "writer has nil StoreOptions"
+		}
+		i.w.Options.StoreOptions.NoClobber = true
+		i.want.NoClobber = true
+		return ""
+	}})
+	out = append(out, step{"last-writer.Options.Format = cdx14 (in place)", func(w *world) string {
+		if len(w.ws) == 0 {
+			return ""
+		}
+		i := w.ws[len(w.ws)-1]
+		i.w.Options.Format = formats.CDX14JSON
+		i.want.Format = formats.CDX14JSON
+		return ""
+	}})
 	// failing forms of every call kind: whatever the error, nobody's configuration may move
 	perCallR := func() *reader.Options {
 		o := &reader.Options{UnserializeOptions: &native.UnserializeOptions{}, RetrieveOptions: &storage.RetrieveOptions{BackendOptions: "per-call"}}
